@@ -10,7 +10,7 @@
    property's right-hand side; [trigger r] = the request classifies as streaming-signed or
    post-policy. *)
 From Coq Require Import List NArith Bool String.
-From SW Require Import model.S3Auth proof.S3AuthProofs proof.S3AuthPolicyProofs.
+From SW Require Import model.S3Auth proof.S3AuthProofs proof.S3AuthPolicyProofs proof.S3AuthHandlerProofs.
 Import ListNotations.
 Local Open Scope string_scope.
 
@@ -21,6 +21,7 @@ Example c26_full_statement_is :
   handler_implies_authorized_statement =
   (forall ids r c action w, ids <> [] -> auth ids r c action = Run w -> authorized ids r c action).
 Proof. exact eq_refl. Qed.
+Print Assumptions c26_full_statement_is.
 
 (* It FAILS on the code as it is (finding 0): an unsigned PUT /b1 with the streaming sha256
    header reaches PutBucketHandler (action Admin); an unsigned POST /b1/o?uploads with a
@@ -123,18 +124,124 @@ Theorem c26_non_allow_grants_nothing : forall doc,
 Proof. exact non_allow_grants_nothing. Qed.
 Print Assumptions c26_non_allow_grants_nothing.
 
-(* ---------- non-vacuity ---------- *)
-Definition ex_ids : list identity :=
-  [ {| id_name := "writer1"; id_creds := [("AKWR1", "sk-wr1")]; id_actions := ["Write:b1"] |};
-    {| id_name := "anonymous"; id_creds := []; id_actions := [ACTION_READ] |} ].
-Definition ex_put : request :=
-  {| rq_method := "PUT"; rq_bucket := "b1"; rq_object := "o"; rq_query := [];
-     rq_authz := Some "AWS4-HMAC-SHA256 Credent"; rq_sha256 := ""; rq_ctype := ""; rq_copysrc := "" |}.
-Definition ex_get : request :=
-  {| rq_method := "GET"; rq_bucket := "b2"; rq_object := "o"; rq_query := [];
-     rq_authz := None; rq_sha256 := ""; rq_ctype := ""; rq_copysrc := "" |}.
-Definition ex_claim : claim := {| cl_ak := "AKWR1"; cl_secret := "sk-wr1"; cl_damage := Intact |}.
 
+(* ---------- the handlers' own verification (V4 streaming seed, POST policy) ----------
+   [takes_effect ids r c e i = Some w]: Auth lets the request through AND the handler behind
+   route i passes its own verification, i.e. the request goes on to the filer; e is the
+   environment (upload known to the filer, POST body and how its policy was signed,
+   identity headers the client sent). *)
+
+(* V4 streaming seed (FULL on PutObject / PutObjectPart): a streaming-signed upload goes on to
+   the filer only with a valid seed signature of a configured identity allowed to Write *)
+Theorem c26_streaming_put_needs_seed : forall ids r c e i w,
+  ids <> [] -> get_request_auth_type r = StreamingSigned ->
+  i = PUT_OBJECT_IDX \/ i = PUT_OBJECT_PART_IDX ->
+  takes_effect ids r c e i = Some w ->
+  seed_spec ids r c = true /\ exists id, w = Some id /\ In id ids /\
+    can_do (id_actions id) ACTION_WRITE (rq_bucket r) = true.
+Proof. exact streaming_put_needs_seed. Qed.
+Print Assumptions c26_streaming_put_needs_seed.
+
+Theorem c26_seed_spec_meaning : forall ids r c,
+  seed_spec ids r c = true <->
+  sprefix signV4Algorithm (remove_spaces (hdr_authz r)) = true /\
+  exists id secret, lookup_by_access_key ids (cl_ak c) = Some (id, secret) /\ secret = cl_secret c /\
+                    sig_fresh false (cl_damage c) = true /\
+                    can_do (id_actions id) ACTION_WRITE (rq_bucket r) = true.
+Proof. exact seed_spec_meaning. Qed.
+Print Assumptions c26_seed_spec_meaning.
+
+(* POST policy (authentication FULL, every classified type): PostPolicyBucketHandler goes on to
+   the filer only with an unexpired policy validly signed (V2 or V4) by a configured identity *)
+Theorem c26_post_policy_needs_signature : forall ids r c e w,
+  takes_effect ids r c e POST_POLICY_IDX = Some w ->
+  exists id, w = Some id /\ policy_signer ids (e_form e) = Some id.
+Proof. exact post_policy_needs_signature. Qed.
+Print Assumptions c26_post_policy_needs_signature.
+
+Theorem c26_policy_signer_meaning : forall ids f id,
+  policy_signer ids f = Some id <->
+  exists v2 pc secret, f = FormPolicy v2 pc /\ lookup_by_access_key ids (cl_ak pc) = Some (id, secret) /\
+                       secret = cl_secret pc /\ cl_damage pc = Intact.
+Proof. exact policy_signer_meaning. Qed.
+Print Assumptions c26_policy_signer_meaning.
+
+(* The property on every route, all five signature kinds of the text.  FULL statement: *)
+Example c26_effect_statement_is :
+  effect_implies_authorized_statement =
+  (forall ids r c e i w, ids <> [] -> route_match r = Some i ->
+     takes_effect ids r c e i = Some w -> effect_authorized_spec ids r c e i = true).
+Proof. exact eq_refl. Qed.
+Print Assumptions c26_effect_statement_is.
+
+(* refuted twice: finding 0 (unsigned streaming-typed PUT /b1 runs PutBucketHandler) and
+   finding 1 (a POST policy upload signed by an identity that may only Read is written) *)
+Theorem c26_effect_refuted : ~ effect_implies_authorized_statement.
+Proof. exact effect_statement_false. Qed.
+Print Assumptions c26_effect_refuted.
+
+Theorem c26_effect_refuted_finding0 :
+  route_match witness_streaming = Some 14%N /\
+  takes_effect witness_ids witness_streaming no_claim env0 14%N = Some None /\
+  effect_authorized_spec witness_ids witness_streaming no_claim env0 14%N = false /\
+  trigger0 witness_ids witness_streaming no_claim 14%N = true.
+Proof. exact effect_refuted_0. Qed.
+Print Assumptions c26_effect_refuted_finding0.
+
+Theorem c26_effect_refuted_finding1 :
+  route_match witness_post = Some POST_POLICY_IDX /\
+  (exists id, takes_effect witness_ids1 witness_post no_claim env1 POST_POLICY_IDX = Some (Some id) /\
+              id_name id = "reader" /\ can_do (id_actions id) ACTION_WRITE "b1" = false) /\
+  effect_authorized_spec witness_ids1 witness_post no_claim env1 POST_POLICY_IDX = false /\
+  trigger0 witness_ids1 witness_post no_claim POST_POLICY_IDX = false /\
+  trigger1 witness_ids1 witness_post env1 POST_POLICY_IDX = true.
+Proof. exact effect_refuted_1. Qed.
+Print Assumptions c26_effect_refuted_finding1.
+
+(* PARTIAL (strongest true statement): outside the two NARROWED trigger sets —
+   trigger0: bypass type on a route other than PutObject / PostPolicy (PutObjectPart: unless the
+   seed signature is valid); trigger1: POST policy validly signed by an identity that may not
+   Write the bucket — a request that goes on to the filer is authorised.  In particular valid
+   streaming uploads and valid POST policy uploads are OUTSIDE the trigger sets. *)
+Theorem c26_effect_partial : forall ids r c e i w,
+  ids <> [] -> route_match r = Some i -> takes_effect ids r c e i = Some w ->
+  trigger0 ids r c i = false -> trigger1 ids r e i = false ->
+  effect_authorized_spec ids r c e i = true.
+Proof. exact effect_partial. Qed.
+Print Assumptions c26_effect_partial.
+
+(* identity context handed to the handlers (finding 2): Auth sets s3-identity-id /
+   s3-is-admin but never removes what the client sent *)
+Theorem c26_identity_headers_refuted : ~ idhdr_statement.
+Proof. exact idhdr_statement_false. Qed.
+Print Assumptions c26_identity_headers_refuted.
+
+Theorem c26_identity_headers_partial : forall d e,
+  e_client_idhdr e = ("", false) -> seen_id_header d e = id_header d.
+Proof. exact seen_header_partial. Qed.
+Print Assumptions c26_identity_headers_partial.
+
+(* PutUserPolicy histories: grants stay inside "prior or named by SOME document ever put";
+   nothing is ever revoked; the bound by the LAST document fails *)
+Theorem c26_put_history_sound : forall docs prior action bucket,
+  is_s3_action action = true ->
+  can_do (put_history prior docs) action bucket = true ->
+  can_do prior action bucket = true \/ exists doc, In doc docs /\ named doc action bucket = true.
+Proof. exact put_history_sound. Qed.
+Print Assumptions c26_put_history_sound.
+
+Theorem c26_put_history_never_revokes : forall docs prior action bucket,
+  can_do prior action bucket = true -> can_do (put_history prior docs) action bucket = true.
+Proof. exact put_history_never_revokes. Qed.
+Print Assumptions c26_put_history_never_revokes.
+
+Theorem c26_last_document_bound_refuted :
+  can_do (put_history [] [doc_wide; doc_narrow]) ACTION_WRITE "b2" = true /\
+  named doc_narrow ACTION_WRITE "b2" = false /\ named doc_wide ACTION_WRITE "b2" = true.
+Proof. exact last_document_bound_refuted. Qed.
+Print Assumptions c26_last_document_bound_refuted.
+
+(* ---------- non-vacuity ---------- *)
 (* the hypotheses of c26_partial are satisfiable: a V4-signed PUT by writer1 on b1 reaches
    PutObject; the same signature on b2 is refused; an anonymous GET is served (anonymous may
    Read) but an anonymous PUT is refused; a wrong secret is refused *)
@@ -149,10 +256,24 @@ Example c26_example :
   auth ex_ids ex_get no_claim ACTION_WRITE = Reject ErrAccessDenied /\
   auth ex_ids ex_put {| cl_ak := "AKWR1"; cl_secret := "sk-other"; cl_damage := Intact |} ACTION_WRITE
     = Reject ErrSignatureDoesNotMatch.
-Proof.
-  repeat split; try (vm_compute; reflexivity);
-  eexists; split; vm_compute; reflexivity.
-Qed.
+Proof. exact wrapper_example. Qed.
+Print Assumptions c26_example.
+
+(* the hypotheses of c26_effect_partial are satisfiable on the two other signature kinds: a
+   streaming upload with writer1's seed signature goes on, an unsigned one does not; a POST
+   policy signed (V2) by writer1 goes on, a POST without a form does not *)
+Example c26_effect_example :
+  get_request_auth_type ex_stream = StreamingSigned /\ route_match ex_stream = Some PUT_OBJECT_IDX /\
+  trigger0 ex_ids2 ex_stream ex_wr_claim PUT_OBJECT_IDX = false /\
+  trigger1 ex_ids2 ex_stream env0 PUT_OBJECT_IDX = false /\
+  (exists id, takes_effect ex_ids2 ex_stream ex_wr_claim env0 PUT_OBJECT_IDX = Some (Some id) /\ id_name id = "writer1") /\
+  takes_effect ex_ids2 ex_stream no_claim env0 PUT_OBJECT_IDX = None /\
+  get_request_auth_type witness_post = PostPolicy /\
+  trigger1 ex_ids2 witness_post env_wr POST_POLICY_IDX = false /\
+  (exists id, takes_effect ex_ids2 witness_post no_claim env_wr POST_POLICY_IDX = Some (Some id) /\ id_name id = "writer1") /\
+  takes_effect ex_ids2 witness_post no_claim env0 POST_POLICY_IDX = None.
+Proof. exact effect_example. Qed.
+Print Assumptions c26_effect_example.
 
 (* a policy document with an Allow and a Deny statement: grants exactly Read/List on b1 *)
 Example c26_policy_example :
@@ -162,4 +283,5 @@ Example c26_policy_example :
   can_do (get_actions doc) ACTION_READ "b1" = true /\ named doc ACTION_READ "b1" = true /\
   can_do (get_actions doc) ACTION_READ "b2" = false /\
   can_do (get_actions doc) ACTION_WRITE "b1" = false /\ named doc ACTION_WRITE "b1" = false.
-Proof. vm_compute. repeat split; reflexivity. Qed.
+Proof. exact policy_example. Qed.
+Print Assumptions c26_policy_example.
